@@ -26,6 +26,7 @@ SCENARIOS = [
     (r'__await__\.wait/(exit:every_taken_event_is_task_done|loop.*nothing_in_hand)', 'rp_timeout_inline_accounting.py'),
     (r'__await__\.wait/callsite:process_event/requires:inline_target', 'rp_await_runs_unrelated.py'),
     (r'__await__\.wait/ensures:complete_at_return_inside_handlers', 'rp_await_gives_up.py'),
+    (r'__await__\.wait/callsite:event_completed_signal\.wait/requires:no_blocking_wait', 'rp_await_done_child_with_queued_descendant.py'),
     (r'__await__\.wait/callsite:get_nowait/requires', 'rp_fifo_inversion.py'),
     (r'BaseEvent\.event_bus/ensures', 'rp_event_bus_after_forward.py'),
     (r'BaseEvent\.event_cancel_pending_child_processing/', 'rp_cancel_walk_family.py'),
